@@ -34,8 +34,8 @@ def _env(ctx):
 # ------------------------------------------------------------------------------------------------ model checking
 def model_check(ctx):
     if ctx.quick():
-        tlc_mc(ctx, 'KevoSST', 'MC_SST_quick.cfg', timeout=280)
-        tlc_mc(ctx, 'KevoSST', 'MC_SST_cor.cfg', timeout=280)
+        tlc_mc(ctx, 'KevoSST', 'MC_SST_quick.cfg', timeout=900)
+        tlc_mc(ctx, 'KevoSST', 'MC_SST_cor.cfg', timeout=900)
     else:
         tlc_mc(ctx, 'KevoSST', 'MC_SST_thorough.cfg', timeout=1400)
         tlc_mc(ctx, 'KevoSST', 'MC_SST_cor_thorough.cfg', timeout=1400)
@@ -50,10 +50,11 @@ def model_check(ctx):
 
 
 def generate(ctx):
-    runs = 6 if ctx.quick() else 12
-    num = 110 if ctx.quick() else 500
+    runs = 3 if ctx.quick() else 9
+    num = 180 if ctx.quick() else 400
     behs, seen = [], set()
-    with cf.ThreadPoolExecutor(max_workers=runs) as ex:
+    # at most 3 simulations at a time: together with the model-checking run that is 4 TLC processes (memory)
+    with cf.ThreadPoolExecutor(max_workers=3) as ex:
         futs = [ex.submit(tlc_sim, ctx, 'GEN_SST', 'GEN_SST.cfg', num, 700, ctx.seed * 31 + 7 + i, 900, f'gen-sst-{i}')
                 for i in range(runs)]
         for f in futs:
@@ -295,16 +296,17 @@ def check_C11(ctx):
     ctx.samples = [{'lens': b['lens'], 'classes': [e['c'] for e in b['ents']][:8], 'prog': b['prog'][:6]} for b in behs[:3]]
     ctx.traces += run_replays(ctx, behs)
     log(f'C11: replays done at {time.time() - ctx.t0:.0f} s')
-    picks = run_sweeps(ctx, behs)
-    log(f'C11: sweeps done at {time.time() - ctx.t0:.0f} s')
     try:
+        picks = run_sweeps(ctx, behs)
+        log(f'C11: sweeps done at {time.time() - ctx.t0:.0f} s')
         selftest_replay(ctx, behs)
         selftest_sweep(ctx, picks)
     except Infra as e:
         if not ctx.violations:
             raise
-        # a tree that already disagrees with the specification can mask a planted disagreement: the verdict stands
-        ctx.notes['binding_selftest'] = 'inconclusive on a tree with violations: ' + str(e)[:200]
+        # a tree that already disagrees with the specification (say, a writer that breaks the file format) can stop the sweep or
+        # mask a planted disagreement: the verdict about the reproduced disagreements stands
+        ctx.notes['after_violations'] = 'sweep / binding self-test inconclusive on a tree with violations: ' + str(e)[:300]
     write_evidence(ctx, 'model_checking',
                    'model checking: KevoSST (operational index scan, restart binary search with step-back, linear decode, block hand-over, '
                    'Get with per-block bloom filter; writer with offset-labelled filters) checked exhaustively for all shapes of the bounded '
